@@ -107,7 +107,7 @@ class Hist:
     def request(self, flags):
         steps = []
         for st in self.steps:
-            code = [[i, v, bool(sh)] for i, (v, sh) in sorted(st["code"].items())]
+            code = [[i, v, bool(sh), self.tasks[i]["mode"] == "ver"] for i, (v, sh) in sorted(st["code"].items())]
             fs = [[p, s] for p, s in sorted(st["fs"].items())]
             n, a = st["root"]
             aval = a if isinstance(a, int) else [Raw("file"), a[1], a[2]]
@@ -262,9 +262,18 @@ def gen_history(rng, nsteps, allow_catch, allow_shallow=True):
 # =========================================================================================== real side
 class Env:
     def __init__(self):
+        import ctl_sched
         self.dir = tempfile.mkdtemp(prefix="c02-")
         self.nhist = 0
-        self.file_hash = {}
+        # an empty, migrated backend: copied for every history and for every fresh-backend oracle run
+        # (running the schema migrations on each new database is 60% of the run time otherwise)
+        self.template = os.path.join(self.dir, "empty.db")
+        s = ctl_sched.make_scheduler(None, db_uri="sqlite:///" + self.template)
+        close_sched(s)
+
+    def empty_db(self, path):
+        shutil.copyfile(self.template, path)
+        return "sqlite:///" + path
 
     def close(self):
         shutil.rmtree(self.dir, ignore_errors=True)
@@ -281,7 +290,7 @@ class RealHist:
         self.dir = os.path.join(env.dir, self.ns)
         os.makedirs(self.dir)
         self.paths = [os.path.join(self.dir, "in%d.txt" % p) for p in range(hist.npaths)]
-        self.db_uri = "sqlite:///" + os.path.join(self.dir, "redun.db")
+        self.db_uri = env.empty_db(os.path.join(self.dir, "redun.db"))
         self.nmod = 0
         self.hash2stamp = {}
 
@@ -421,8 +430,16 @@ class inherit_priority:
         return False
 
 
-def run_step(rh, st, flags_unused=None):
-    """returns (cached outcome, call log, fresh outcome)"""
+def close_sched(sched):
+    try:
+        sched.backend.session.close()
+        sched.backend.engine.dispose()
+    except Exception:  # noqa: BLE001
+        pass
+
+
+def run_step(rh, st):
+    """returns (outcome on the shared backend, task functions called, outcome on an empty backend)"""
     import ctl_sched
     rh.write_fs(st["fs"])
     mod = rh.define(st["code"])
@@ -432,21 +449,15 @@ def run_step(rh, st, flags_unused=None):
         status, payload = ctl.run(sched, rh.root_expr(mod, st["root"]))
     out = rh.res_str(status, payload)
     log = rh.log_str(ctl, st["code"])
-    try:
-        sched.backend.session.close()
-        sched.backend.engine.dispose()
-    except Exception:  # noqa: BLE001
-        pass
+    close_sched(sched)
     ctl2 = make_ctl()
-    sched2 = ctl_sched.make_scheduler(ctl2)
+    fresh_path = os.path.join(rh.dir, "fresh.db")
+    sched2 = ctl_sched.make_scheduler(ctl2, db_uri=rh.env.empty_db(fresh_path))
     with inherit_priority(ctl2):
         status2, payload2 = ctl2.run(sched2, rh.root_expr(mod, st["root"]))
     fresh = rh.res_str(status2, payload2)
-    try:
-        sched2.backend.session.close()
-        sched2.backend.engine.dispose()
-    except Exception:  # noqa: BLE001
-        pass
+    close_sched(sched2)
+    os.remove(fresh_path)
     return out, log, fresh
 
 
